@@ -18,3 +18,6 @@ func opts() treekit.Options { return treekit.Options{Shape: true, MaxCount: vk.S
 func TestTreeShape(t *testing.T) {
 	vk.Run(t, suite, "shapeplan", 1200, treekit.GenPlan(opts()), treekit.RunPlan(opts()))
 }
+
+// FuzzTreeShape: native coverage-guided fuzzing of the same property (thorough tier only).
+func FuzzTreeShape(f *testing.F) { vk.Fuzz(f, suite, "shapeplan", treekit.GenPlan(opts()), treekit.RunPlan(opts())) }
